@@ -76,7 +76,8 @@ class G:
                 pass
             elif self.owner[s] == PR:
                 for p, t in lst:
-                    d[t] = d.get(t, 0) + p
+                    if p != 0:          # a transition listed with probability 0 is no transition of the chain
+                        d[t] = d.get(t, 0) + p
             else:
                 d[lst[choice[s]][1]] = F(1)
             ch.append(d)
@@ -328,7 +329,7 @@ def end_components(game):
     """
     n = len(game["players"])
     owner = game["players"]
-    tl = [[t for _, t in (lst or [])] for lst in game["transition_list"]]
+    tl = [[t for l_, t in (lst or []) if not (owner[s] == PR and l_ == 0)] for s, lst in enumerate(game["transition_list"])]
     result = []
     work = [set(s for s in range(n) if tl[s])]
     while work:
@@ -446,7 +447,8 @@ def conditioned_game(game, reach_strategies, probabilities, prune):
             live = [t for t in lst if probabilities[t[1]] != 0]
             if pl == PR and live and len(live) < len(lst):
                 tot = sum(F(t[0]) for t in live)
-                live = [(F(t[0]) / tot, t[1]) for t in live]
+                # all surviving transitions carry probability 0: nothing survives (the state is worth 0)
+                live = [(F(t[0]) / tot, t[1]) for t in live] if tot != 0 else []
             lst = live
         tl.append(lst)
     return dict(rewards=list(game["rewards"]), players=list(game["players"]),
